@@ -361,7 +361,7 @@ def check(prog, run):
             continue
         appended = any(isinstance(c.func, ast.Attribute) and c.func.attr == "append" for c in env.get(boolx.CALLS, ()))
         if not appended:
-            cond = ", ".join("%s=%s" % kv for kv in sorted(env.items()) if kv[0] not in (boolx.CALLS, boolx.STMTS))
+            cond = ", ".join("%s=%s" % kv for kv in sorted(env.items()) if kv[0] not in boolx.META)
             run.report(r, "py_gql.utilities.ast_node_from_value:_object_value_node_from_value:provided-member-dropped", ov.where(st) if st is not None else ov.where(loops[0]),
                        "a member present in the value can be left out of the printed object literal (when %s)" % cond)
             break
